@@ -236,3 +236,29 @@ def proxy_filter(ctx: Ctx):
         okf = equivalent(cnd, need)
     yield ctx.ob('SUPPORT.PROXY-FILTER', okf, wr, apps[0].node if apps else wr.node, 'write() keeps a fragment iff fullmatch(whitespace) fails', '' if okf else
                  'write() does not keep exactly the fragments that are not entirely whitespace (fullmatch on the whole fragment)', construct='fullmatch')
+
+
+MUTABLE_CTORS = {'dict', 'list', 'set', 'deque', 'collections.deque', 'defaultdict', 'collections.defaultdict', 'OrderedSet', 'Counter',
+                 'collections.Counter', 'OrderedDict', 'collections.OrderedDict'}
+
+
+@rule('SUPPORT.STATE-PER-INSTANCE', ['C03', 'C01', 'C04', 'C05', 'C11', 'C17'])
+def state_per_instance(ctx: Ctx):
+    """Scheduler / runner / executor bookkeeping is per instance: no class-level mutable container in the classes
+    of lab.py and runners/ (a class attribute is shared by every run in the process)."""
+    n = 0
+    for c in ctx.P.classes.values():
+        if not (c.module.name.endswith('.lab') or '.runners' in c.module.name):
+            continue
+        decos = [dotted(d.func if isinstance(d, ast.Call) else d) or '' for d in c.node.decorator_list]
+        for name, v in c.consts.items():
+            mutable = isinstance(v, (ast.Dict, ast.List, ast.Set, ast.DictComp, ast.ListComp, ast.SetComp)) or \
+                (isinstance(v, ast.Call) and dotted(v.func) in MUTABLE_CTORS)
+            if not mutable:
+                continue
+            n += 1
+            yield ctx.ob('SUPPORT.STATE-PER-INSTANCE', False, None, None, f'{c.name}.{name} is a class-level mutable container',
+                         f'{c.name}.{name} = {src(v)[:40]} is shared by all instances: work queued or recorded by one run_tasks call leaks into the next',
+                         construct=f'{c.name}.{name}', path=c.module.path)
+    yield ctx.ob('SUPPORT.STATE-PER-INSTANCE', True, None, None, f'classes of lab.py / runners scanned, {n} class-level mutable containers',
+                 construct='scan', path='labtech/lab.py')
